@@ -9,7 +9,7 @@ def run(ctx, res):
     if not ctx.require_roles(res):
         return
     r = ctx.roles
-    e3.apply(ctx, res, "C02", floor=35)
+    e3.apply(ctx, res, "C02", floor=120)
     # (c) entry_size(k, v) = heap_size(k) + heap_size(v) + size_of::<Entry<K,V>>()   [term check]
     alg = MemSizeAlgebra(ctx)
     b = None
